@@ -8,6 +8,7 @@
 //!         wrapper 0 = LZMA2Writer, 1 = XZWriter (no pre-filter, no block size)
 //!   purem <opts> <member_size> <data> <opsA> <opsB>      LZIPWriter with a member size (implementation only)
 //!   lzexp <opts> <expected|none> <seed> <ops>            LZMAWriter with header: declared size vs written size
+//!   huge1 <opts> <n>                                     one write() of n zero bytes (n >= 2^31), thorough tier only
 //! ops: comma separated; a number = write() of that many bytes of the data, `f` = flush(); finish()
 //! follows (lzexp: `F` = finish, explicit).
 //! Observation: OK <SAME|DIFF> <summary A> <summary B>: SAME = output bytes and symbol traces of
@@ -400,6 +401,24 @@ pub fn exec(a: &[&str]) -> (String, String) {
             let (ops_a, ops_b) = (parse_ops(a[4]), parse_ops(a[5]));
             compare(&o, &Kind::Lzip { member: Some(member) }, &data, &ops_a, &ops_b, true, false)
         }
+        "huge1" => {
+            // one write() of a 2 GiB slice (zero pages: never committed): fill_window must clamp the
+            // slice length in usize (repaired defect: `input.len() as i32` was negative)
+            let o = Opts::parse(a[1]);
+            let n: usize = a[2].parse().unwrap();
+            let v = vec![0u8; n];
+            let r = guarded(|| {
+                let mut w = LZMAWriter::new(std::io::sink(), &o.lzma(None), false, true, None)?;
+                let k = w.write(&v)?;
+                w.finish()?;
+                Ok(k)
+            });
+            match r {
+                Outcome::Ok(k) => (format!("OK {k}"), if k == n { "ok".into() } else { format!("FAIL write() accepted {k} of {n} bytes") }),
+                Outcome::Err(c) => (format!("ERR {c}"), format!("FAIL writer error kind {c}")),
+                Outcome::Panic(m) => ("PANIC".into(), format!("FAIL writer panics: {}", &m[..m.len().min(100)])),
+            }
+        }
         "lzexp" => {
             let o = Opts::parse(a[1]);
             let expected: Option<u64> = if a[2] == "none" { None } else { Some(a[2].parse().unwrap()) };
@@ -552,8 +571,8 @@ fn tame(mut o: Opts, class: &str) -> Opts {
 
 pub fn gen(rng: &mut Rng, tier: &str, dist: &mut Dist) -> Vec<String> {
     let thorough = tier == "thorough";
-    let n = if thorough { 3000 } else { 360 };
-    let max_len = if thorough { 30000 } else { 6000 };
+    let n = if thorough { 12000 } else { 360 };
+    let max_len = if thorough { 40000 } else { 6000 };
     let mut cmds = Vec::new();
     for i in 0..n {
         let class = if i < DATA_CLASSES.len() { DATA_CLASSES[i] } else { *rng.pick(DATA_CLASSES) };
@@ -653,6 +672,10 @@ pub fn gen(rng: &mut Rng, tier: &str, dist: &mut Dist) -> Vec<String> {
         let b: Vec<Op> = lens.iter().map(|n| Op::Write(*n)).collect();
         dist.bump(&format!("big.{class}.lzma1"));
         cmds.push(format!("pure1 {} {} none {} {} {}", o1.to_string(), rng.below(5), hexd, ops_to_string(&one), ops_to_string(&b)));
+    }
+    if thorough {
+        dist.bump("regress.huge_slice");
+        cmds.push("huge1 3,0,2,4096,32,0,0,4 2147483648".to_string());
     }
     // regression class of the repaired defect (repo fix "LZMA2 uncompressed fallback reaches before
     // the window when the parser has read ahead"): small dictionary, normal mode, a nearly full
